@@ -32,9 +32,14 @@ import (
 
 // ReaderSpec describes how the content is delivered.
 type ReaderSpec struct {
-	Kind   string `json:"kind"` // whole, bytewise, chunks, zeroreads, dataeof, errat, short, long
+	Kind   string `json:"kind"` // whole, bytewise, chunks, zeroreads, dataeof, errat, short, long, corrupt
 	K      int    `json:"k,omitempty"`
 	Chunks []int  `json:"chunks,omitempty"`
+	// ZeroAt > 0: one (0, nil) read is injected when the read position is ZeroAt-1
+	// (combined with any kind, e.g. exactly at offset Size of a long stream)
+	ZeroAt int `json:"zeroAt,omitempty"`
+	// Step > 0: at most Step bytes per read (combined with any kind)
+	Step int `json:"step,omitempty"`
 }
 
 // Case is one C05 case.
@@ -52,7 +57,7 @@ type Case struct {
 
 var descMuts = []string{"exact", "exact", "exact", "wrongdigest", "neg1", "zero", "len-1", "len+1", "2len", "minint", "maxint",
 	"empty-digest", "nocolon", "badhexlen", "upperhex", "md5", "hex63", "hex65"}
-var readerKinds = []string{"whole", "whole", "bytewise", "chunks", "zeroreads", "dataeof", "errat", "short", "long"}
+var readerKinds = []string{"whole", "whole", "bytewise", "chunks", "zeroreads", "dataeof", "errat", "short", "long", "long", "corrupt"}
 var sinks = []string{"readall", "fetchall", "verifyreader", "memory", "oci-storage", "oci-store", "file-named", "file-unnamed", "limit", "copygraph"}
 
 func genCase(t *rapid.T) Case {
@@ -91,6 +96,17 @@ func genCase(t *rapid.T) Case {
 		c.Reader.K = rapid.IntRange(0, c.Size).Draw(t, "k")
 	case "long":
 		c.Reader.K = rapid.IntRange(1, 5).Draw(t, "extra")
+	case "corrupt":
+		c.Reader.K = rapid.IntRange(0, c.Size).Draw(t, "corruptAt")
+	}
+	switch rapid.IntRange(0, 5).Draw(t, "zeroAtMode") {
+	case 0:
+		c.Reader.ZeroAt = c.Size + 1 // exactly at the size boundary
+	case 1:
+		c.Reader.ZeroAt = rapid.IntRange(1, c.Size+3).Draw(t, "zeroAt")
+	}
+	if rapid.IntRange(0, 3).Draw(t, "stepMode") == 0 {
+		c.Reader.Step = rapid.IntRange(1, 9).Draw(t, "step")
 	}
 	if c.Sink == "limit" {
 		c.Limit = rapid.IntRange(-1, 1).Draw(t, "limit")
@@ -118,6 +134,7 @@ type scriptReader struct {
 	tick     int
 	errAt    int
 	finished bool
+	zeroDone bool
 }
 
 func newReader(b []byte, spec ReaderSpec) (*scriptReader, []byte) {
@@ -130,6 +147,11 @@ func newReader(b []byte, spec ReaderSpec) (*scriptReader, []byte) {
 	case "errat":
 		r.data = b
 		r.errAt = spec.K
+	case "corrupt":
+		r.data = append([]byte(nil), b...)
+		if len(r.data) > 0 {
+			r.data[spec.K%len(r.data)] ^= 0x5a
+		}
 	default:
 		r.data = b
 	}
@@ -142,6 +164,10 @@ func newReader(b []byte, spec ReaderSpec) (*scriptReader, []byte) {
 
 func (r *scriptReader) Read(p []byte) (int, error) {
 	r.tick++
+	if r.spec.ZeroAt > 0 && !r.zeroDone && r.pos == r.spec.ZeroAt-1 {
+		r.zeroDone = true
+		return 0, nil
+	}
 	if r.errAt >= 0 && r.pos >= r.errAt {
 		return 0, errInjected
 	}
@@ -152,17 +178,27 @@ func (r *scriptReader) Read(p []byte) (int, error) {
 		return 0, nil
 	}
 	n := len(p)
+	if r.spec.Step > 0 && n > r.spec.Step {
+		n = r.spec.Step
+	}
+	if r.spec.ZeroAt > 0 && !r.zeroDone && r.pos < r.spec.ZeroAt-1 && r.pos+n > r.spec.ZeroAt-1 {
+		n = r.spec.ZeroAt - 1 - r.pos // stop exactly where the 0-byte read is due
+	}
 	switch r.spec.Kind {
 	case "bytewise":
 		n = 1
 	case "chunks":
-		n = r.spec.Chunks[r.ci%len(r.spec.Chunks)]
+		if k := r.spec.Chunks[r.ci%len(r.spec.Chunks)]; k < n {
+			n = k
+		}
 		r.ci++
 	case "zeroreads":
 		if r.tick%2 == 1 {
 			return 0, nil
 		}
-		n = 7
+		if n > 7 {
+			n = 7
+		}
 	}
 	if n > len(p) {
 		n = len(p)
@@ -605,7 +641,10 @@ func isAlreadyExists(err error) bool {
 }
 
 func TestMain(m *testing.M) {
-	vt.Main(m, "C05", vt.NewLeg("main", 6000, 20000, 16, genCase, runCase))
+	vt.Main(m, "C05",
+		vt.NewLeg("main", 6000, 20000, 16, genCase, runCase),
+		vt.NewLeg("race", 250, 1500, 8, genRace, runRace),
+	)
 }
 
 func TestLegs(t *testing.T)   { vt.TestLegs(t) }
